@@ -319,5 +319,11 @@ def rfwd_forwarding(chk: Check) -> None:
     shared.forwarding_rule(chk, "C06.FWD", ('schemas.py:APIOperation.Case', 'specs/openapi/schemas.py:SwaggerV20.make_case', 'specs/graphql/schemas.py:GraphQLSchema.make_case', 'generation/case.py:Case.call', 'generation/case.py:Case.as_transport_kwargs'), "case components on their way to the transport", 4)
 
 
+def r7_sanitizer_on_copies(chk: Check) -> None:
+    from . import shared
+
+    shared.inplace_sanitizer_rule(chk, "C06.R7")
+
+
 def rules(tier: str) -> list:  # type: ignore[type-arg]
-    return [r1_registries, r2_content_type, r3_quote_all, r3b_template_ownership, r4_header_writers, r5_cookie_pair, r6_no_truthiness_rewrite, rfwd_forwarding]
+    return [r1_registries, r2_content_type, r3_quote_all, r3b_template_ownership, r4_header_writers, r5_cookie_pair, r6_no_truthiness_rewrite, r7_sanitizer_on_copies, rfwd_forwarding]
